@@ -109,12 +109,17 @@ pub enum Op {
     UpdateMeta { id: IdClass, meta: MetaClass, merge: bool },
     Delete { id: IdClass },
     BatchDeleteIds { ids: Vec<IdClass>, oversize: bool },
+    /// a long (but allowed) id list: `pad` copies of ids that are NOT live padding the front, so
+    /// that a bad id among `ids` sits far behind the start of the list
+    BatchDeleteLong { pad: u16, ids: Vec<IdClass> },
     BatchDeleteFilter(FClass),
     BatchDeleteNone,
     Query { id: IdClass },
     BulkQuery { ids: Vec<IdClass>, oversize: bool },
     Search(SReq),
     BulkSearch(Vec<SReq>),
+    /// the same search n times back to back (no other request in between)
+    SearchBurst { req: SReq, n: u8 },
     Flush,
     Restart { kill: bool },
 }
@@ -432,7 +437,7 @@ impl Sess {
     }
 
     /// Health + a valid canary search must still be answered OK.
-    fn still_serving(&mut self, what: &str) -> Result<(), Failure> {
+    fn still_serving(&mut self, what: &str) -> Result<Vec<u64>, Failure> {
         if !self.srv.is_alive() {
             return Err(Failure::new("server_died", format!("{}: the server process is gone; log tail: {}", what, self.srv.log_tail())).with_sig(json!({"kind": "server_stopped_serving"})));
         }
@@ -442,10 +447,10 @@ impl Sess {
         }
         let q = pb::SearchRequest { query_embedding: vec_of(VClass::Valid(1)), k: 3, ..Default::default() };
         let r = self.call(|mut c, k| async move { c.search(with_key(q, k.as_deref())).await })?;
-        if let Err(s) = r {
-            return Err(Failure::new("canary_search_failed", format!("{}: a valid Search afterwards answered {:?} {}", what, s.code(), s.message())).with_sig(json!({"kind": "server_stopped_serving", "rpc": "Search"})));
+        match r {
+            Err(s) => Err(Failure::new("canary_search_failed", format!("{}: a valid Search afterwards answered {:?} {}", what, s.code(), s.message())).with_sig(json!({"kind": "server_stopped_serving", "rpc": "Search"}))),
+            Ok(resp) => Ok(resp.get_ref().results.iter().map(|x| x.doc_id).collect()),
         }
-        Ok(())
     }
 }
 
@@ -482,7 +487,7 @@ impl Prop for C15 {
             .iter()
             .map(|c| {
                 let mut t = Tape::new(c);
-                match t.weighted(&[16, 6, 5, 1, 4, 4, 3, 3, 1, 3, 3, 8, 3, 1, 2]) {
+                match t.weighted(&[16, 6, 5, 1, 4, 4, 3, 3, 1, 3, 3, 8, 3, 1, 2, 2, 2]) {
                     0 => Op::Insert(gen_item(&mut t)),
                     1 => Op::BulkInsert((0..1 + t.below(5)).map(|_| gen_item(&mut t)).collect()),
                     2 => Op::BulkLoad((0..1 + t.below(5)).map(|_| gen_item(&mut t)).collect()),
@@ -504,7 +509,9 @@ impl Prop for C15 {
                     11 => Op::Search(gen_sreq(&mut t)),
                     12 => Op::BulkSearch((0..1 + t.below(4)).map(|_| gen_sreq(&mut t)).collect()),
                     13 => Op::Flush,
-                    _ => Op::Restart { kill: t.chance(128) },
+                    14 => Op::Restart { kill: t.chance(128) },
+                    15 => Op::SearchBurst { req: gen_sreq(&mut t), n: 3 + t.below(6) as u8 },
+                    _ => Op::BatchDeleteLong { pad: t.pick(&[511u16, 512, 513, 600, 1024, 3000, 9990]), ids: (0..1 + t.below(4)).map(|_| gen_id(&mut t)).collect() },
                 }
             })
             .collect();
@@ -522,6 +529,7 @@ impl Prop for C15 {
         let mut model: BTreeMap<u64, Stamp> = BTreeMap::new();
         let mut rep = CaseReport::default();
         let mut refused_seen_nonempty = false;
+        let mut prev_canary: Option<Vec<u64>> = None;
         for (i, op) in case.ops.iter().enumerate() {
             let what = format!("op {} {:?}", i, op);
             let what = if what.len() > 300 { format!("{}…", &what[..300]) } else { what };
@@ -705,6 +713,45 @@ impl Prop for C15 {
                     }
                     writes = true;
                 }
+                Op::BatchDeleteLong { pad, ids } => {
+                    // padding: live ids first (they are real victims if the request is accepted)
+                    let live: Vec<u64> = model.keys().copied().filter(|i| *i <= 6).collect();
+                    let mut idv: Vec<u64> = vec![];
+                    for j in 0..*pad as usize {
+                        idv.push(if live.is_empty() { 7 + (j as u64 % 50) } else { live[j % live.len()] });
+                    }
+                    idv.extend(ids.iter().map(|i| id_of(*i)));
+                    let cls = ids.iter().fold(Cls::Valid, |a, i| worst(a, if *i == IdClass::Zero { Cls::Either } else { id_cls(*i, auth) }));
+                    let list = idv.clone();
+                    let resp = s.call(|mut c, k| async move {
+                        c.batch_delete(with_key(pb::BatchDeleteRequest { delete_criteria: Some(pb::batch_delete_request::DeleteCriteria::Ids(pb::IdList { doc_ids: list })), namespace: String::new() }, k.as_deref())).await
+                    })?;
+                    answered(&what, &resp)?;
+                    match &resp {
+                        Ok(x) => {
+                            if cls == Cls::Refuse {
+                                return Err(Failure::new("invalid_request_accepted", format!("{}: answered OK deleted={}", what, x.get_ref().deleted_count)).with_sig(sigk("invalid_request_accepted", "BatchDelete")));
+                            }
+                            let victims: BTreeSet<u64> = idv.iter().filter(|i| model.contains_key(i)).copied().collect();
+                            if x.get_ref().deleted_count != victims.len() as u64 {
+                                return Err(Failure::new("batch_delete_count", format!("{}: deleted_count={} but {} listed ids are live", what, x.get_ref().deleted_count, victims.len())));
+                            }
+                            for v in victims {
+                                model.remove(&v);
+                            }
+                        }
+                        Err(st) => {
+                            if cls == Cls::Valid {
+                                return Err(Failure::new("valid_write_refused", format!("{}: answered {:?} {}", what, st.code(), st.message())).with_sig(sigk("valid_write_refused", "BatchDelete")));
+                            }
+                            if cls == Cls::Refuse && !model.is_empty() {
+                                refused_seen_nonempty = true;
+                            }
+                        }
+                    }
+                    rep.label("long_id_list");
+                    writes = true;
+                }
                 Op::BatchDeleteFilter(f) => {
                     let filter = filter_of(*f).unwrap_or(pb::MetadataFilter { filter_type: None });
                     let resp = s.call(|mut c, k| async move { c.batch_delete(with_key(pb::BatchDeleteRequest { delete_criteria: Some(pb::batch_delete_request::DeleteCriteria::Filter(filter)), namespace: String::new() }, k.as_deref())).await })?;
@@ -819,6 +866,28 @@ impl Prop for C15 {
                         refused_seen_nonempty = true;
                     }
                 }
+                Op::SearchBurst { req, n } => {
+                    let cls = sreq_cls(req);
+                    for j in 0..*n {
+                        let r = sreq_of(req);
+                        let resp = s.call(|mut c, k| async move { c.search(with_key(r, k.as_deref())).await })?;
+                        answered(&what, &resp)?;
+                        match &resp {
+                            Ok(x) => {
+                                if cls == Cls::Refuse {
+                                    return Err(Failure::new("invalid_request_accepted", format!("{} [{}]: answered OK with {} results", what, j, x.get_ref().results.len())).with_sig(sigk("invalid_request_accepted", "Search")));
+                                }
+                                judge_results(&what, &x.get_ref().results, req, &model)?;
+                            }
+                            Err(st) => {
+                                if cls == Cls::Valid {
+                                    return Err(Failure::new("valid_read_refused", format!("{} [{}]: answered {:?} {}", what, j, st.code(), st.message())).with_sig(sigk("valid_read_refused", "Search")));
+                                }
+                            }
+                        }
+                    }
+                    rep.label("search_burst");
+                }
                 Op::BulkSearch(list) => {
                     let reqs: Vec<pb::SearchRequest> = list.iter().map(sreq_of).collect();
                     let n = reqs.len();
@@ -911,7 +980,20 @@ impl Prop for C15 {
                 }
                 model = expect;
             }
-            s.still_serving(&what)?;
+            let canary = s.still_serving(&what)?;
+            // a READ request (valid or not) changes nothing: the canary search must answer exactly
+            // as it did before it ("keeps serving later requests"; e.g. invalid queries must not
+            // trip a circuit breaker that degrades later valid searches)
+            let is_read = matches!(op, Op::Query { .. } | Op::BulkQuery { .. } | Op::Search(_) | Op::BulkSearch(_) | Op::SearchBurst { .. });
+            if is_read {
+                if let Some(prev) = &prev_canary {
+                    if *prev != canary {
+                        return Err(Failure::new("read_request_changed_later_answers", format!("{}: the canary search answered ids {:?} before this read request and {:?} after it", what, prev, canary)).with_sig(json!({"kind": "read_request_changed_later_answers"})));
+                    }
+                    rep.count("canary_compared_across_reads", 1);
+                }
+            }
+            prev_canary = Some(canary);
             rep.count("evaluations_judged", 1);
         }
         // final restart: the collection after restart equals the accepted items
@@ -921,7 +1003,7 @@ impl Prop for C15 {
         if got != model {
             return Err(Failure::new("census_differs_after_restart", format!("after restart the collection is {:?}, the accepted items give {:?}", got, model)).with_sig(json!({"kind": "refused_item_had_effect", "after_restart": true})));
         }
-        s.still_serving("after the final restart")?;
+        let _ = s.still_serving("after the final restart")?;
         Ok(rep)
     }
 }
